@@ -8,6 +8,8 @@ the translators and the `*_is_code` proof scripts have to know:
                                        else: x = B                  (single plain-name target; not when both A and B are attributes:
                                                                     an alias of one of two mutable fields has its own
                                                                     treatment in pyobj.point_method)
+  R1b if c: x = o.A                ->  x = o.A if c else o.B        (the converse, for exactly the attribute case R1 leaves alone)
+      else: x = o.B
   R2  in a loop body:  if c: continue      ->  if not c:
                        rest…                       rest…            (the `if` has no else, `rest` is not empty)
   R2b in a loop body:  if not c: break     ->  if c:
@@ -35,6 +37,16 @@ class _Norm(ast.NodeTransformer):
             v = node.value
             mk = lambda val: ast.Assign(targets=[ast.Name(id=node.targets[0].id, ctx=ast.Store())], value=val, lineno=node.lineno)
             return ast.copy_location(ast.If(test=v.test, body=[mk(v.body)], orelse=[mk(v.orelse)]), node)
+        return node
+
+    def visit_If(self, node):
+        self.generic_visit(node)
+        if len(node.body) == 1 and len(node.orelse) == 1:
+            a, b = node.body[0], node.orelse[0]
+            if all(isinstance(x, ast.Assign) and len(x.targets) == 1 and isinstance(x.targets[0], ast.Name)
+                   and isinstance(x.value, ast.Attribute) for x in (a, b)) and a.targets[0].id == b.targets[0].id:
+                return ast.copy_location(ast.Assign(targets=[ast.Name(id=a.targets[0].id, ctx=ast.Store())],
+                                                    value=ast.IfExp(test=node.test, body=a.value, orelse=b.value), lineno=node.lineno), node)
         return node
 
     def _loop_body(self, body):
